@@ -184,6 +184,14 @@ def check(run):
     if tier["dreplay"] and tier["dreplay"] < len(dscn):
         dscn, run.exhaustive = rng.sample(dscn, tier["dreplay"]), False
     dscn += [dc.explore_dra(rng, "x-dra-%d-%d" % (run.seed, i)) for i in range(tier["dexplore"])]
+    # witnesses of the listed known findings (always replayed, so the KNOWN-FINDING lines do not depend on the seed)
+    wdir = os.path.join(vlib.ROOT, "checks", "witness")
+    nwit = 0
+    for f in sorted(os.listdir(wdir)):
+        if f.startswith("C17-") and f.endswith(".json"):
+            w = json.load(open(os.path.join(wdir, f)))
+            (dscn if "dra" in w else scenarios).append(w)
+            nwit += 1
     # 3. the real scheduler
     files, sums, hook = run_driver(run, scenarios, "c17", procs)
     dfiles, dsums, dhook = run_driver(run, dscn, "c17dra", procs)
@@ -203,7 +211,7 @@ def check(run):
                    {"scenario": dscn[0]["name"], "summary": dsums[0]}, {"scenario": dscn[-1]["name"], "summary": dsums[-1]}]
     run.extra_cov.update({"halves": "reservations + DRA",
                           "tlc_enumerated_scenarios": total_enum, "tlc_scenarios_replayed": len(enum), "explorer_scenarios": tier["explore"],
-                          "dra_tlc_worlds": total_worlds, "dra_tlc_scenarios": total_dscn, "dra_scenarios_replayed": len(dscn) - tier["dexplore"],
+                          "dra_tlc_worlds": total_worlds, "dra_tlc_scenarios": total_dscn, "dra_scenarios_replayed": len(dscn) - tier["dexplore"] - nwit, "witness_scenarios": nwit,
                           "dra_explorer_scenarios": tier["dexplore"], "trace_stats": stats, "dra_trace_stats": dstats, "hook_h1_events": hook,
                           "new_claims": sum(s.get("claims", 0) for s in sums + dsums), "pod_errors": sum(s.get("errors", 0) for s in sums + dsums),
                           "panics": sum(1 for s in sums + dsums if s.get("panic"))})
